@@ -134,6 +134,7 @@ func (p *parser) on_parser_term__token(tok Token) *ast.ParserTerm {
 	case ID:
 		return &ast.ParserTerm{Name: string(tok.Str)}
 	case LITERAL:
+		p.checkEscapes(tok)
 		return &ast.ParserTerm{Alias: fixLiteral(tok.Str)}
 	case ERROR_KEYWORD:
 		return &ast.ParserTerm{Type: ast.ParserTermError}
@@ -290,6 +291,7 @@ func (p *parser) on_lexer_card(c Token) ast.Card {
 func (p *parser) on_lexer_term__tok(tok Token) ast.LexerTerm {
 	switch tok.Type {
 	case LITERAL:
+		p.checkEscapes(tok)
 		return &ast.LexerTermLiteral{
 			Literal: fixLiteral(tok.Str),
 		}
@@ -367,6 +369,7 @@ func (p *parser) on_char_class(neg Token, _ Token, chars []Token, _ Token) *ast.
 }
 
 func (p *parser) on_char_class_item(c Token) Token {
+	p.checkEscapes(c)
 	return c
 }
 
@@ -409,6 +412,31 @@ func (p *parser) _onBounds(r any, begin, end Token) {
 		Begin: begin.Pos,
 		End:   end.Pos + gotoken.Pos(len(end.Str)),
 	})
+}
+
+// checkEscapes reports \u and \U escape sequences that do not name a Unicode
+// code point (surrogates and values above U+10FFFF). Left alone, they would
+// silently turn into U+FFFD, which is also what invalid input decodes to.
+func (p *parser) checkEscapes(tok Token) {
+	lit := tok.Str
+	for i := 0; i+1 < len(lit); i++ {
+		if lit[i] != '\\' {
+			continue
+		}
+		n := 0
+		switch lit[i+1] {
+		case 'u':
+			n = 4
+		case 'U':
+			n = 8
+		}
+		if n != 0 && !utf8.ValidRune(hexToRune(string(lit[i+2:i+2+n]))) {
+			p.errs.Errorf(
+				tok.Pos+gotoken.Pos(i),
+				"escape sequence is not a valid Unicode code point")
+		}
+		i++
+	}
 }
 
 func fixLiteral(lit []byte) string {
